@@ -44,6 +44,17 @@ def gen_scalar(t, rnd):
     if t == "Character": return rnd.choice("abcXYZ019")
     return rnd.choice(["s", "foo", "Bar_1", "x-y", "longer_string_value", "0", "A|B"])
 
+def _gen_id(rnd, c, pos):
+    """an ID: mostly rs numbers; sometimes a `;`-separated list, sometimes a name carrying a comma (plink2-style
+    chrom:pos:ref:alt1,alt2 names for multi-allelic sites) -- the VCF grammar forbids only white space and `;` inside one ID"""
+    k = rnd.random()
+    if k < 0.7:
+        return "rs%d" % rnd.randint(1, 99)
+    if k < 0.85:
+        return "rs%d;rs%d" % (rnd.randint(1, 99), rnd.randint(100, 199))
+    return "%d:%d:A:C,T" % (c, pos)
+
+
 def gen_case(seed, overlong=0.0):
     """overlong: probability that a fixed-Number field carries one value more than declared
     (htslib and cyvcf2 pass such vectors through unchanged)."""
@@ -85,7 +96,7 @@ def gen_case(seed, overlong=0.0):
         pos = rnd.randint(1, 200)
         for _ in range(rnd.randint(1, 12)):
             nalt = rnd.choice([0, 1, 1, 1, 2, 2, 3])
-            r = dict(contig=c, pos=pos, id=None if rnd.random() < 0.5 else "rs%d" % rnd.randint(1, 99),
+            r = dict(contig=c, pos=pos, id=None if rnd.random() < 0.5 else _gen_id(rnd, c, pos),
                      ref="".join(rnd.choice("ACGT") for _ in range(rnd.randint(1, 3))),
                      alts=["".join(rnd.choice("ACGT") for _ in range(rnd.randint(1, 3))) for _ in range(nalt)],
                      qual=None if rnd.random() < 0.3 else rnd.choice([0.0, 1.0, 12.5, 99.0, 3.25, 1e-3]),
